@@ -40,6 +40,7 @@ func runC10(c *Ctx) {
 	c10Atomic(c, p, fns, la)
 	c10Pairing(c, p, fns, la)
 	c10Globals(c, p, fns, la)
+	c10CheckThenAct(c, p, fns, la)
 }
 
 func c10Guarded(c *Ctx, p *core.Prog, la *lockAnalysis) {
